@@ -521,9 +521,15 @@ Proof.
 Qed.
 
 (* the wiring of the three streams: all the model can say *)
-Theorem streams_wired : run_compiled_wiring =
+Theorem streams_wired : forall inv nargs, run_compiled_wiring inv nargs =
   {| w_stdin := CallerStdin; w_stdout := CallerStdout; w_stderr := CallerStderr |}.
 Proof. reflexivity. Qed.
+
+Theorem streams_wired_each : forall inv nargs,
+  w_stdin (run_compiled_wiring inv nargs) = CallerStdin /\
+  w_stdout (run_compiled_wiring inv nargs) = CallerStdout /\
+  w_stderr (run_compiled_wiring inv nargs) = CallerStderr.
+Proof. intros; repeat split. Qed.
 
 (* ------------------------------------------------------------------ non-vacuity *)
 Definition ex_env : env :=
